@@ -26,6 +26,9 @@ try:
     demo_cmd, suite_cmd = clean(meta["commands"]["demo"]), clean(meta["commands"]["suite"])
     m = re.search(r"(?:cd\s+(\S+)\s*&&.*?)?go test\b.*?\s(\./\S*|\.)\s*\)?\s*$", demo_cmd)
     pkgdir = os.path.normpath(os.path.join(m.group(1) or ".", m.group(2))) if m else meta.get("demo_location", ".")
+    mC = re.search(r"go test\s+-C\s+(\S+)", demo_cmd)
+    if mC:
+        pkgdir = os.path.normpath(os.path.join(mC.group(1), m.group(2) if m else "."))
     placed = []
     for fn in os.listdir(os.path.join(src, "demo")):
         if fn.endswith(".go"):
